@@ -325,10 +325,9 @@ func init() {
 	reg("(time.Time).UnixMicro", "floor(t / 1e3)", func(ex *Exec, a []Val, st *State, _ *types.Signature) []Val {
 		return []Val{P.mk("div", "", SInt, []*Term{tm(a[0]), IntT(1000)}, nil)}
 	})
-	regEff("(time.Time).AppendFormat", "may overwrite the elements of the given buffer; returns an unconstrained byte slice; touches nothing else", func(ex *Exec, a []Val, st *State, sig *types.Signature) []Val {
-		b := a[1].(*Agg)
-		ex.havocElems(st, tm(b.F[0]), types.Typ[types.Byte])
-		return ex.freshResults(st, sig, "appendFormat")
+	regEff("(time.Time).AppendFormat", "append(b, text...) for an uninterpreted text (a function of the time and the layout): the bytes already in b are kept; touches nothing else", func(ex *Exec, a []Val, st *State, sig *types.Signature) []Val {
+		text := UF("time.format", SStr, tm(a[0]), tm(a[2]))
+		return []Val{ex.appendTo(st, types.NewSlice(types.Typ[types.Byte]), []Val{a[1], text})}
 	})
 	reg("time.Unix", "sec*1e9 + nsec", func(ex *Exec, a []Val, st *State, _ *types.Signature) []Val {
 		return []Val{Add(Mul(tm(a[0]), IntT(1000000000)), tm(a[1]))}
